@@ -1,11 +1,13 @@
 package props
 
 import (
+	"bytes"
 	"encoding/json"
 	"fmt"
 	"os"
 	"os/exec"
 	"path/filepath"
+	"strings"
 
 	"verif/engine/ev"
 )
@@ -58,4 +60,53 @@ func tail(b []byte, n int) string {
 		b = b[len(b)-n:]
 	}
 	return string(b)
+}
+
+// crashGuard runs the rest of the check in a child process. The image helpers
+// run their work in goroutines the library spawns itself: a panic there cannot
+// be recovered by the caller and kills the process, which is itself a
+// violation (it crashed its caller) and must be reported as one rather than
+// lose the check. In the child it returns immediately; in the parent it never
+// returns.
+func crashGuard(prop, tier, level string) {
+	if os.Getenv("VERIF_CRASHGUARD") != "" {
+		return
+	}
+	cmd := exec.Command(os.Args[0], prop, tier)
+	cmd.Env = append(os.Environ(), "VERIF_CRASHGUARD=1")
+	cmd.Stdout = os.Stdout
+	var stderr bytes.Buffer
+	cmd.Stderr = &stderr
+	err := cmd.Run()
+	code := 0
+	if err != nil {
+		code = 2
+		if ee, ok := err.(*exec.ExitError); ok {
+			code = ee.ExitCode()
+		}
+	}
+	if code == 0 || code == 1 {
+		os.Stderr.Write(stderr.Bytes())
+		os.Exit(code)
+	}
+	r := ev.Begin(prop, tier, level)
+	r.NotExhaustive()
+	r.Rule("the enumeration runs in a child process; the child died")
+	st := stderr.String()
+	first := st
+	if i := strings.Index(st, "goroutine "); i > 0 {
+		first = st[:i]
+	}
+	where := ""
+	for _, l := range strings.Split(st, "\n") {
+		if strings.Contains(l, ".go:") && !strings.Contains(l, "/runtime/") && !strings.Contains(l, "/verif/") {
+			where = strings.TrimSpace(l)
+			break
+		}
+	}
+	r.Eval(1)
+	r.DistinctN(2)
+	r.Violate("process-crash", fmt.Sprintf("the process running the checks was killed by a panic the caller cannot recover (exit %d): %s at %s", code, strings.TrimSpace(tail([]byte(first), 300)), where),
+		map[string]interface{}{"stderr_tail": tail(stderr.Bytes(), 3000)}, nil)
+	r.Finish()
 }
